@@ -270,11 +270,12 @@ struct E5 : Engine {
 			}
 			if(q.geti("tick_inside") > 0) simk::advance_us(q.geti("tick_inside")*1000000);
 			bool want_server = location == "server" || (location == "both" && (on_server || false));
-			if(location == "client" && on_server){ // documented: client-only storage refuses on_server sessions
-				bool threw = false; try { s.save(); } catch(cppcms::cppcms_error const &){ threw = true; } if(!threw && !cur.empty()) res.fail("on-server-ignored",where + ": on_server(true) with client-only storage was accepted"); cnt["on_server_refused"]++;
-				// the request failed: nothing was stored; forget what the model assumed about this browser
-				jar.jar.clear(); m = MSession(); continue; }
-			try { s.save(); } catch(std::exception const &e){ res.fail("save-threw",where + ": save() threw " + e.what()); break; }
+			{ bool refused = false;
+			  try { s.save(); }
+			  catch(cppcms::cppcms_error const &e){ if(location == "client" && on_server) refused = true; else { res.fail("save-threw",where + ": save() threw " + e.what()); break; } }
+			  catch(std::exception const &e){ res.fail("save-threw",where + ": save() threw " + e.what()); break; }
+			  if(refused){ // documented: client-only storage cannot keep an on_server session; the request failed, nothing was stored: forget this browser
+				cnt["on_server_refused"]++; jar.jar.clear(); m = MSession(); continue; } }
 			// ---------------- model of save()
 			int64_t t = now(); std::string old_sid = m.exists && m.where == "server" ? m.sid : "";
 			if(cur.empty()){
